@@ -1,4 +1,6 @@
 """C04 - solving a period touches only that period; reads never wrap round the span."""
+import itertools
+
 import numpy as np
 
 from .. import env  # noqa: F401
@@ -186,45 +188,54 @@ def check_solve_range(case):
     origin = case.get('origin', 100)      # labels origin..origin+n-1: 0 and negative labels are ordinary period labels
     if origin <= 0:
         res.tag('span-with-label-0')
+    variant = RANGE_VARIANTS[case.get('variant', 0) % len(RANGE_VARIANTS)]
     for p0 in [None] + list(range(n)):
         for p1 in [None] + list(range(n)):
             m, data = fresh(M, ref, n, bases, origin=origin)
-            kw = dict(SOLVE_KW)
+            kw = dict(SOLVE_KW, **variant)
             if p0 is not None:
                 kw['start'] = origin + p0
             if p1 is not None:
                 kw['end'] = origin + p1
             out = R.quiet_call(attempt, m.solve, **kw)
-            detail = f'{text!r} LAGS={L} LEADS={K} n={n} span from {origin}: solve(start={None if p0 is None else origin + p0}, end={None if p1 is None else origin + p1})'
-            if not range_outcome(res, 'solve', m, data, ref, n, L, K, p0, p1, out, detail):
+            detail = (f'{text!r} LAGS={L} LEADS={K} n={n} span from {origin}: solve(start={None if p0 is None else origin + p0}, '
+                      f'end={None if p1 is None else origin + p1}, {variant})')
+            if not range_outcome(res, 'solve', m, data, ref, n, L, K, p0, p1, out, detail, offset=variant.get('offset', 0)):
                 return res
     return res
 
 
-def range_outcome(res, key, m, data, ref, n, L, K, p0, p1, out, detail):
+RANGE_VARIANTS = [{}, {'offset': -1}, {'offset': 1}, {'max_iter': 0}, {'max_iter': 0, 'offset': -1}]
+
+
+def range_outcome(res, key, m, data, ref, n, L, K, p0, p1, out, detail, offset=0):
     """solve(start, end) on either engine: the periods in order; an explicitly requested period that cannot accommodate the
-    lags/leads must be refused when it is reached (the feasible periods in front of it may have been solved)."""
+    lags/leads (or whose offset source lies outside the span) must be refused when it is reached, before anything is written
+    for it (the periods in front of it may have been solved)."""
     a = L if p0 is None else p0
     b = n - 1 - K if p1 is None else p1
     requested = list(range(a, b + 1))
-    infeasible = [T for T in requested if not L <= T <= n - 1 - K]
+    infeasible = [T for T in requested if not L <= T <= n - 1 - K or not 0 <= T + offset < n]
     periods = set(requested) if not infeasible else set(range(a, infeasible[0]))
     cells = set()
     for T in periods:
         cells |= assigned_cells(ref, T)
+        if offset:
+            cells |= {(e, T) for e in ref.endogenous}        # the copy from t+offset precedes the first pass
     if infeasible:
-        res.tag('range-with-infeasible-period')
+        bad = infeasible[0]
+        why = 'infeasible-period' if not L <= bad <= n - 1 - K else 'offset-source-outside-span'
+        res.tag('range-with-' + why)
         res.nontrivial = True
         if out.ok:
-            side = 'front' if infeasible[0] < L else 'back'
-            res.fail(f'{key}/infeasible-period-served/{side}', f'{detail}: returned {out.value!r} although period position '
-                     f'{infeasible[0]} cannot accommodate the lags/leads')
+            side = 'front' if bad < L or bad + offset < 0 else 'back'
+            res.fail(f'{key}/{why}-served/{side}', f'{detail}: returned {out.value!r} although period position {bad} cannot be solved')
             return False
-        if infeasible[0] == a and not isinstance(out.exc, IndexError):
+        if bad == a and not isinstance(out.exc, IndexError):
             # (when feasible periods come first, one of them may legitimately have raised something else before)
-            res.fail(f'{key}/infeasible-period/not-IndexError', f'{detail}: {out!r}')
+            res.fail(f'{key}/{why}/not-IndexError', f'{detail}: {out!r}')
             return False
-        return compare_frame(res, f'{key}-infeasible', m, data, ref, n, cells, periods, detail)
+        return compare_frame(res, f'{key}-{why}', m, data, ref, n, cells, periods, detail)
     if out.ok:
         if list(out.value[1]) != sorted(periods):
             res.fail(f'{key}/periods-visited', f'{detail}: visited {list(out.value[1])}, expected {sorted(periods)}')
@@ -311,20 +322,20 @@ def check_fortran(case):
         if not compare_frame(res, 'fortran/solve_t', m, data, ref, n, assigned_cells(ref, T), {T}, detail):
             return res
     # solve(start, end), every pair of positions (the wrapper hands the whole range to the compiled loop)
-    for p0 in [None] + list(range(n)):
-        for p1 in [None] + list(range(n)):
+    for variant, p0, p1 in itertools.product(RANGE_VARIANTS, [None] + list(range(n)), [None] + list(range(n))):
+        if True:
             data = R.make_data(ref.names, n, case.get('bases') or [[1.0, 2.0, 0.5, 4.0]])
             for k in data:
                 data[k] = np.abs(data[k]) % 3.0 + 0.5
             m = F(range(100, 100 + n), **{k: v.copy() for k, v in data.items()})
-            kw = dict(SOLVE_KW)
+            kw = dict(SOLVE_KW, **variant)
             if p0 is not None:
                 kw['start'] = 100 + p0
             if p1 is not None:
                 kw['end'] = 100 + p1
             out = R.quiet_call(attempt, m.solve, **kw)
-            detail = f'[Fortran engine] {text!r} LAGS={L} LEADS={K} n={n}: solve(start={kw.get("start")}, end={kw.get("end")})'
-            if not range_outcome(res, 'fortran/solve', m, data, ref, n, L, K, p0, p1, out, detail):
+            detail = f'[Fortran engine] {text!r} LAGS={L} LEADS={K} n={n}: solve(start={kw.get("start")}, end={kw.get("end")}, {variant})'
+            if not range_outcome(res, 'fortran/solve', m, data, ref, n, L, K, p0, p1, out, detail, offset=variant.get('offset', 0)):
                 return res
     return res
 
@@ -344,7 +355,7 @@ def strategy(**kw):
         args.update(kw)
         return st.fixed_dictionaries({
             'prog': G.programs(**args),
-            'extra': st.integers(0, 4),
+            'extra': st.integers(0, 4), 'variant': st.integers(0, 4),
             'victim': st.integers(0, 2), 'origin': st.sampled_from([100, 0, 0, -1, -2]), 'rep': tapes(),
             'history': st.sampled_from([None, None, None, 'reindexed-shorter', 'reindexed-longer']),
             'bases': st.lists(st.lists(st.sampled_from([1.0, 2.0, 0.5, 4.0, 3.0, 0.25, 1.5]), min_size=2, max_size=4), min_size=1, max_size=3),
